@@ -50,6 +50,8 @@ def setup(ns, ctx, cfg):
             labs = [None if k % 2 == 0 else "x" for k in range(nunits)]
         elif labels == "same":
             labs = ["x"] * nunits
+        elif labels == "empty-string":
+            labs = [("", None, "x")[k % 3] for k in range(nunits)]
         else:
             labs = list(labels)
         c, info = common.build_continuum(ns, ctx, sizes, coords=cfg.get("coords", "sym"), labels=labs,
